@@ -206,10 +206,18 @@ def infra_events(ctx, traces, save_hang_ok=False):
     snapshot walker's depth guard.  They are infrastructure errors (exit 2).  With save_hang_ok
     (C09) one case is left to the contract: a SAVE that does not return although Keep writes
     failed before it ("a later save can still succeed"); earlier hang events of such a trace are
-    dropped so that the contract rejects exactly the save."""
+    dropped so that the contract rejects exactly the save.
+    The error is DEFERRED: the trace is cut before the event and the message returned, so that the
+    other traces (and the prefix of this one) are still judged; the caller raises the InfraError
+    after judging only if no violation was found (a violation elsewhere in the run stands on its own).
+    """
+    msg = None
     for t in traces:
-        if any(e["ev"] == "snap" and any(x[0] and x[0][-1] == "!toodeep" for x in e["ents"]) for e in t):
-            raise vlib.InfraError("snapshot walker hit its depth guard (scenario %s)" % t[0].get("scn"))
+        for i, e in enumerate(t):
+            if e["ev"] == "snap" and any(x[0] and x[0][-1] == "!toodeep" for x in e["ents"]):
+                msg = msg or "snapshot walker hit its depth guard (scenario %s)" % t[0].get("scn")
+                del t[i:]
+                break
         hangs = [e for e in t if e["ev"] == "hang"]
         if not hangs:
             continue
@@ -217,8 +225,15 @@ def infra_events(ctx, traces, save_hang_ok=False):
         if save_hang_ok and failed and any(h.get("op") == "save" for h in hangs):
             t[:] = [e for e in t if not (e["ev"] == "hang" and e.get("op") != "save")]
             continue
-        raise vlib.InfraError("a call did not return (scenario %s: %s); the statement has no termination clause for it"
-                              % (t[0].get("scn"), hangs[0]))
+        msg = msg or ("a call did not return (scenario %s: %s); the statement has no termination clause for it"
+                      % (t[0].get("scn"), hangs[0]))
+        del t[t.index(hangs[0]):]
+    return msg
+
+
+def raise_deferred(ctx, msg):
+    if msg and not ctx.violations:
+        raise vlib.InfraError(msg)
 
 
 def kf_scenarios(sid0, seed):
@@ -267,6 +282,34 @@ def pattern_scenarios(sid0, seed, rnd):
             out.append({"id": sid0 + i, "mode": "steps", "bs": bs, "flush": fl, "rseed": seed + i, "init": "empty",
                         "gen": "pattern", "ops": ops})
             i += 1
+    out += pending_flush_scenarios(sid0 + i, seed, rnd)
+    return out
+
+
+def pending_flush_scenarios(sid0, seed, rnd):
+    """A call that happens while the block write of an asynchronous Flush is still PENDING (hold mode
+    of the driver: background Keep writes return only after the next call): two small files packed
+    into one block; then a pure Truncate GROW (no write afterwards), a shrink, an overwrite or an
+    append of the first file; then the write completes and everything is read back."""
+    o = lambda h, p: {"op": "open", "h": h, "p": p, "acc": "rw", "cr": True, "ex": False, "tr": False, "ap": False}
+    out = []
+    i = 0
+    for bs in (8, 16, 64):
+        for what in ("grow", "grow2", "shrink", "overwrite", "append"):
+            la, lb = rnd.randint(1, bs // 2 - 1), rnd.randint(1, bs // 2 - 1)
+            a = "".join(rnd.choice("ab") for _ in range(la))
+            b = "".join(rnd.choice("xyz") for _ in range(lb))
+            mid = {"grow": [{"op": "trunc", "h": 1, "n": la + rnd.randint(1, bs - la)}],
+                   "grow2": [{"op": "trunc", "h": 1, "n": la + 1}, {"op": "flushnow", "d": "flushall"},
+                             {"op": "trunc", "h": 1, "n": la + 2}],
+                   "shrink": [{"op": "trunc", "h": 1, "n": rnd.randint(0, la - 1)}],
+                   "overwrite": [{"op": "seek", "h": 1, "off": 0, "wh": 0}, {"op": "write", "h": 1, "d": "q"}],
+                   "append": [{"op": "write", "h": 1, "d": "qq"}]}[what]
+            ops = [o(1, ["a"]), {"op": "write", "h": 1, "d": a}, o(2, ["b"]), {"op": "write", "h": 2, "d": b},
+                   {"op": "flushnow", "d": "flushall"}] + mid + [{"op": "stat", "p": ["a"]}, {"op": "stat", "p": ["b"]}]
+            out.append({"id": sid0 + i, "mode": "steps", "bs": bs, "flush": "none", "rseed": seed + i, "init": "empty",
+                        "gen": "pending", "hold": True, "ops": ops})
+            i += 1
     return out
 
 
@@ -291,6 +334,8 @@ def build_scenarios(ctx, paths, rnd):
         scns.append({"id": sid, "mode": "random", "ops": [], "bs": bss[i % len(bss)],
                      "flush": FLUSHES[(i // len(bss) + i) % len(FLUSHES)], "rseed": ctx.seed * 7919 + i,
                      "nops": nops, "init": "manifest" if i % 2 else "empty", "gen": "random"})
+        if scns[-1]["flush"] in ("flushall", "flushlong", "flushdir", "mixed") and i % 3 != 0:
+            scns[-1]["hold"] = True       # background block writes stay pending across the next call
     # smoke run with the production block size limit (64 MiB)
     for i in range(4 if ctx.thorough else 2):
         sid += 1
@@ -334,11 +379,12 @@ def run(ctx):
     traces = vlib.split_traces(events)
     ctx.evaluations = len(traces)
     ctx.extra["events_judged"] = len(events)
-    infra_events(ctx, traces)
+    deferred = infra_events(ctx, traces)
     events = [e for t in traces for e in t]
     # JUDGE
     install_classifier(ctx)
     judge_fast(ctx, SD, "CollFSTrace", "Judge_CollFS_C08.cfg", events, scenario_of=by_id, timeout=2400)
+    raise_deferred(ctx, deferred)
     nontrivial = set()
     calls = 0
     for t in traces:
